@@ -8,20 +8,15 @@ from replay import projlib as P
 HASHDIR = [None]
 
 def check_audits(p, q, metas, when):
-    rc, out = p.bob('query-path', '-f', '{name}|{src}|{build}|{dist}', '//*')
-    paths = {}
-    for l in out.split('\n'):
-        parts = l.strip().split('|')
-        if len(parts) == 4: paths[parts[0]] = dict(zip(('src', 'build', 'dist'), parts[1:]))
+    paths = p.paths()
     hashDirectory = HASHDIR[0]
-    by_name = {}
-    for key, rec in q.items(): by_name[rec['package']] = rec
     vid_of = {}
-    for name, rec in by_name.items():
-        for label, s in rec['steps'].items(): vid_of[(name, label)] = s['vid']
-    for name, rec in by_name.items():
+    for key, rec in q.items():
+        for label, s in rec['steps'].items(): vid_of.setdefault((rec['package'], label), set()).add(s['vid'])
+    for key, rec in q.items():
+        name = rec['package']
         for label, s in rec['steps'].items():
-            ws = paths.get(name, {}).get(label)
+            ws = paths.get(key, {}).get(label)
             if not ws: continue
             a = p.audit(ws)
             if a is None: return {'kind': 'audit-missing', 'when': when, 'workspace': ws}
@@ -29,8 +24,12 @@ def check_audits(p, q, metas, when):
             if art['variant-id'] != s['vid']:
                 return {'kind': 'audit-variant-id', 'when': when, 'workspace': ws, 'audit': art['variant-id'], 'step': s['vid']}
             m = art['meta']
-            if (m.get('recipe'), m.get('package'), m.get('step')) != (rec['recipe'], rec['package'], label):
-                return {'kind': 'audit-names', 'when': when, 'workspace': ws, 'audit_meta': m, 'expected': [rec['recipe'], rec['package'], label]}
+            # the recorded package is the full path of one of the packages that live in this workspace
+            # (a step that was not re-executed keeps the package path under which it was built; only the package's
+            #  own name is compared, the path above it may have changed through recipe edits)
+            same_ws = {k2 for k2 in q if paths.get(k2, {}).get(label) == ws}
+            if (m.get('recipe'), m.get('step')) != (rec['recipe'], label) or (m.get('package') or '').split('/')[-1] != rec['package'].split('/')[-1]:
+                return {'kind': 'audit-names', 'when': when, 'workspace': ws, 'audit_meta': m, 'expected': [rec['recipe'], sorted(same_ws), label]}
             for k, v in metas.items():
                 if k not in ('recipe', 'package', 'step', 'bob', 'language') and m.get(k) != v:
                     return {'kind': 'audit-meta-var', 'when': when, 'workspace': ws, 'key': k, 'audit': m.get(k), 'expected': v}
@@ -45,9 +44,9 @@ def check_audits(p, q, metas, when):
                 if i in seen: continue
                 seen.add(i)
                 if i not in refs: return {'kind': 'audit-incomplete', 'when': when, 'workspace': ws, 'missing': i}
-                r = refs[i]; key = (r['meta'].get('package'), r['meta'].get('step'))
-                if key in vid_of and r['variant-id'] != vid_of[key]:
-                    return {'kind': 'audit-stale-reference', 'when': when, 'workspace': ws, 'referenced': list(key), 'record': r['variant-id'], 'step': vid_of[key]}
+                r = refs[i]; key = (r['meta'].get('package', '').split('/')[-1], r['meta'].get('step'))
+                if key in vid_of and r['variant-id'] not in vid_of[key]:
+                    return {'kind': 'audit-stale-reference', 'when': when, 'workspace': ws, 'referenced': list(key), 'record': r['variant-id'], 'step': sorted(vid_of[key])}
                 todo.extend(r['dependencies'].get('args', []))
             if len(art['dependencies'].get('args', [])) != len(s['args']):
                 return {'kind': 'audit-args', 'when': when, 'workspace': ws, 'audit_args': len(art['dependencies'].get('args', [])), 'step_args': len(s['args'])}
